@@ -5,7 +5,7 @@
    OBJECTS.  A fixed tree  core > assemblies > blocks > leaves (components); nodes are numbered leaves first,
    then blocks, assemblies, core.  Leaves carry an integer cross-section Area[l] (cm2, hot), blocks an integer
    Height[b] and a symmetry factor Sym[b] in {1,2,3} (HexBlock.getSymmetryFactor: 3 = centre of a third core, 2 = edge
-   assembly present on both edges, 1 otherwise).  Nuclides {a,b,c}; {a,b} are isotopes of one element E; abstract integer
+   assembly present on both edges, 1 otherwise).  Nuclides {a,b,c,d}; {a,b,d} are isotopes of one element E (d not a natural one); abstract integer
    atomic weights W[n] (the harness runs the real code with the weights of the three nuclides set to exactly these
    values).  UNITS: masses and mass densities are in units of 1/K gram, K = units.MOLES_PER_CC_TO_ATOMS_PER_BARN_CM
    (model mass = K * grams); atoms in units of 1e24.  These are unit conversions done by the adapter's projection.
@@ -36,9 +36,16 @@
      AddMasses   addMasses(dict)         addMass entry by entry in dict order, zero entries skipped, negative entries remove;
                                          the first entry naming a nuclide nobody holds raises ValueError, earlier entries stay applied
      SetMasses   setMasses(dict)         clearNumberDensities, then setMass entry by entry (same partial application)
-     SetHeight   Block.setHeight(h, conserveMass, adjustList = all nuclides of the block)
-                                         p.height = h, caches cleared; conserveMass: every nuclide with a non-zero homogenised
-                                         density is re-set at block level to density * old/new height (Block.adjustDensity)
+     SetHeight   Block.setHeight(h, conserveMass, adjustList)
+                                         p.height = h, caches cleared; conserveMass: Block.adjustDensity(old/new, adjustList);
+                                         an empty adjustList raises ValueError *after* the height was changed
+     AdjustDensity Block.adjustDensity(f, adjustList): every listed nuclide with a non-zero homogenised density is re-set at
+                                         block level to density * f (+ trace); nuclides not listed are not touched
+     AdjustEnrich Component.adjustMassEnrichment(f): the enriched nuclide a gets the share f of the element's mass fraction,
+                                         the other isotopes (all isotopes of the element, natural or not) share 1 - f in their
+                                         old proportions; applied with setMassFracs
+     AdjustMF    adjustMassFrac(adjust, hold, v): the mass fractions of the adjusted nuclide/element sum to v (scaled, or spread
+                                         evenly when they had none), the held ones stay, the rest is scaled to fill 1; setMassFracs
 
    INTERPRETATION CHOICES (also in evidence.assumptions)
    * All blocks of one assembly have the same cross-section and symmetry factor (ASSUME EqualAreas): ARMI defines the
@@ -84,14 +91,18 @@ CONSTANTS NLeaf, NBlk, NAsm,
           N0, H0,       \* initial composition
           Targets,      \* nodes at which edits are applied
           Vals, Facs, Masses, Maps, FracMaps, AddMaps, SetMaps,   \* parameter domains of the edits
+          AdjSets,      \* adjustList values (subsets of Nuc: all, proper subsets, empty, nuclides nobody holds)
+          EnrFracs,     \* enrichments for AdjustEnrich
+          AdjMFs,       \* [adj, hold, v] records for AdjustMF; adj / hold name a nuclide, "E" (the element) or "" (none)
           MaxLevel,
+          LSrc,         \* mass-fraction edits start from states whose densities have a common denominator <= LSrc
           LMax, VMax,   \* modelling bound on magnitudes: lcm of all denominators <= LMax, every density <= VMax
           LeafVolCut,   \* design switch, see header
           ScaleRaises   \* design switch, see header
 
-Nuc    == {"a", "b", "c"}
-NucSeq == <<"a", "b", "c">>
-Elem   == {"a", "b"}
+Nuc    == {"a", "b", "c", "d"}
+NucSeq == <<"a", "b", "c", "d">>
+Elem   == {"a", "b", "d"}        \* isotopes of one element; d is not a naturally occurring one (U235, U238, U236)
 Leaf   == 1..NLeaf
 Blk    == (NLeaf + 1)..(NLeaf + NBlk)
 Asm    == (NLeaf + NBlk + 1)..(NLeaf + NBlk + NAsm)
@@ -219,6 +230,9 @@ SmallSt(st) == LET dens == {st.N[l][n][2] : l \in Leaf, n \in Nuc}
                IN /\ \A d \in dens : d <= LMax
                   /\ FoldSet(LAMBDA d, acc : IF acc > LMax THEN acc ELSE QLcm(d, acc), 1, dens) <= LMax
                   /\ \A l \in Leaf, n \in Nuc : st.N[l][n][1] <= VMax * st.N[l][n][2]
+\* the mass-fraction edits multiply several densities and weights: they start only from states whose densities have a small common
+\* denominator (again a bound of the exploration; the trace driver keeps to it as well)
+Tame == FoldSet(LAMBDA d, acc : IF acc > LSrc THEN acc ELSE QLcm(d, acc), 1, {N[l][n][2] : l \in Leaf, n \in Nuc}) <= LSrc
 Accept(a, st2, t) == SmallSt(st2) /\ N' = st2.N /\ H' = st2.H /\ tr' = t /\ hgt' = hgt /\ act' = a /\ err' = ""
 Refuse(a, kind)   == UNCHANGED vars /\ act' = a /\ err' = kind
 
@@ -242,7 +256,7 @@ SetMass(x, n, m)    == MassEdit("SetMass", x, n, m, DT_NumberDensity(n, m, EditV
 SetMassFracs(x, fm) ==
     LET a == [n |-> "SetMassFracs", x |-> x, m |-> fm]
         rho == Dens(N, x)
-    IN /\ ~tr
+    IN /\ ~tr /\ Tame
        /\ IF RIsZero(rho) THEN ~IsLeaf(x) /\ Refuse(a, "ValueError")                \* "mass density is zero"
           ELSE LET absent == {n \in DOMAIN fm : ~Has(H, x, n) /\ ~RIsZero(fm[n])}
                IN IF IsLeaf(x) \/ absent = {} THEN Accept(a, MassFracSt(St, x, fm), tr)
@@ -265,14 +279,45 @@ AddMasses(x, m) ==
 SetMasses(x, m) ==
     /\ \A n \in DOMAIN m : RLeq(RZero, m[n])
     /\ VectorDone([n |-> "SetMasses", x |-> x, m |-> m], MassSeq([st |-> ClearSt(St, x), err |-> ""], x, m, 1, FALSE), TRUE)
-SetHeight(b, h, cons) ==
-    LET ratio == RFrac(hgt[b], h)
-        st2 == IF cons THEN FoldSet(LAMBDA n, acc : IF RIsZero(ND(N, b, n)) THEN acc ELSE PutN(acc, b, n, QMul(ND(N, b, n), ratio)),
-                                    St, NucsAt(H, b))
-               ELSE St
-    IN /\ h # hgt[b] /\ (cons => NucsAt(H, b) # {})
-       /\ SmallSt(st2) /\ N' = st2.N /\ H' = st2.H /\ tr' = tr /\ hgt' = [hgt EXCEPT ![b] = h]
-       /\ act' = [n |-> "SetHeight", x |-> b, h |-> h, cons |-> cons] /\ err' = ""
+AdjustSt(st, b, f, adj) ==             \* Block.adjustDensity: homogenised densities read once, then one setNumberDensity per nuclide
+    FoldSet(LAMBDA n, acc : IF RIsZero(ND(N, b, n)) THEN acc ELSE PutN(acc, b, n, QMul(ND(N, b, n), f)), st, adj)
+SetHeight(b, h, cons, adj) ==
+    LET a   == [n |-> "SetHeight", x |-> b, h |-> h, cons |-> cons, adj |-> [i \in 1..Len(NucSeq) |-> NucSeq[i] \in adj]]
+        st2 == IF cons /\ adj # {} THEN AdjustSt(St, b, RFrac(hgt[b], h), adj) ELSE St
+    IN /\ h # hgt[b] /\ (~cons => adj = {})
+       /\ SmallSt(st2) /\ N' = st2.N /\ H' = st2.H /\ tr' = tr /\ hgt' = [hgt EXCEPT ![b] = h] /\ act' = a
+       /\ err' = IF cons /\ adj = {} THEN "ValueError" ELSE ""        \* "Nuclides in adjustList must be provided", height already set
+AdjustDensity(b, f, adj) ==
+    LET st2 == AdjustSt(St, b, f, adj)
+    IN Accept([n |-> "AdjustDensity", x |-> b, f |-> f, adj |-> [i \in 1..Len(NucSeq) |-> NucSeq[i] \in adj]], st2, tr)
+\* mass-fraction edits that end in setMassFracs with every nuclide of the object listed
+Resolve(s) == IF s = "E" THEN Elem ELSE IF s = "" THEN {} ELSE {s}
+AdjustEnrich(l, f) ==
+    LET mf   == MassFracs(N, l)
+        e    == QSumSet(Elem, LAMBDA n : mf[n])
+        rest == QSub(e, mf["a"])
+        fm   == [n \in {k \in Elem : k = "a" \/ ~RIsZero(mf[k])} |->
+                    IF n = "a" THEN QMul(e, f) ELSE QMul(QMul(e, QSub(ROne, f)), QDiv(mf[n], rest))]
+    IN /\ IsLeaf(l) /\ ~tr /\ Tame /\ "a" \in H[l] /\ ~RIsZero(rest)     \* (KeyError / ZeroDivisionError otherwise: not requested)
+       /\ Accept([n |-> "AdjustEnrich", x |-> l, f |-> f], MassFracSt(St, l, fm), tr)
+AdjustMF(x, adj, hold, v) ==
+    LET a    == [n |-> "AdjustMF", x |-> x, adj |-> adj, hold |-> hold, v |-> v]
+        here == NucsAt(H, x)
+        mf   == MassFracs(N, x)
+        AN   == Resolve(adj) \cap here
+        CN   == Resolve(hold) \cap here
+        A    == QSumSet(AN, LAMBDA n : mf[n])
+        C    == QSumSet(CN, LAMBDA n : mf[n])
+        O    == QSub(QSub(ROne, A), C)
+        newA == IF AN = {} THEN RZero ELSE v
+        f2   == IF RIsZero(O) THEN ROne ELSE QDiv(QSub(QSub(ROne, newA), C), O)
+        fm   == [n \in here \ CN |->          \* the held nuclides are not listed: setMassFracs re-normalises them to what is left
+                    IF n \in AN THEN (IF RIsZero(A) THEN QDiv(v, RInt(Cardinality(AN))) ELSE QMul(mf[n], QDiv(v, A)))
+                    ELSE QMul(mf[n], f2)]
+    IN /\ ~tr /\ Tame /\ ~RIsZero(Dens(N, x)) /\ AN \cap CN = {}
+       /\ RLeq(QAdd(newA, C), ROne)                     \* legal request: the adjusted and the held fractions fit into one
+       /\ IF AN = {} THEN ~RIsZero(v) /\ Refuse(a, "RuntimeError")            \* "Failed to adjust mass fraction."
+          ELSE Accept(a, MassFracSt(St, x, fm), tr)
 
 Init == N = N0 /\ H = H0 /\ tr = FALSE /\ hgt = [b \in Blk |-> Height[b]] /\ act = [n |-> "Init"] /\ err = ""
 DoSetN        == \E x \in Targets, n \in Nuc, v \in Vals : SetN(x, n, v)
@@ -286,9 +331,12 @@ DoSetMass     == \E x \in Targets, n \in Nuc, m \in Masses : SetMass(x, n, m)
 DoSetMassFracs == \E x \in Targets, fm \in FracMaps : SetMassFracs(x, fm)
 DoAddMasses   == \E x \in Targets, m \in AddMaps : AddMasses(x, m)
 DoSetMasses   == \E x \in Targets, m \in SetMaps : SetMasses(x, m)
-DoSetHeight   == \E b \in HTargets, h \in HVals, cons \in BOOLEAN : SetHeight(b, h, cons)
+DoSetHeight   == \E b \in HTargets, h \in HVals : SetHeight(b, h, FALSE, {}) \/ \E adj \in AdjSets : SetHeight(b, h, TRUE, adj)
+DoAdjustDensity == \E b \in HTargets, f \in Facs, adj \in AdjSets : AdjustDensity(b, f, adj)
+DoAdjustEnrich == \E l \in Targets \cap Leaf, f \in EnrFracs : AdjustEnrich(l, f)
+DoAdjustMF    == \E x \in Targets, r \in AdjMFs : AdjustMF(x, r.adj, r.hold, r.v)
 Next == DoSetN \/ DoUpdateN \/ DoSetNs \/ DoScale \/ DoClear \/ DoAddMass \/ DoRemoveMass \/ DoSetMass \/ DoSetMassFracs
-        \/ DoAddMasses \/ DoSetMasses \/ DoSetHeight
+        \/ DoAddMasses \/ DoSetMasses \/ DoSetHeight \/ DoAdjustDensity \/ DoAdjustEnrich \/ DoAdjustMF
 
 (* ------------------------------- the property, clause by clause (state invariants) ---------------------- *)
 \* per-state tables, evaluated once per invariant (TLC does not memoise operators)
@@ -372,11 +420,37 @@ VectorReadsBack == LET x == act'.x  m == act'.m IN
     \A n \in Nuc : IF act'.n = "AddMasses" THEN MassDelta(x, n) = (IF n \in DOMAIN m THEN m[n] ELSE RZero)
                     ELSE Massp(x, {n}) = (IF n \in DOMAIN m THEN m[n] ELSE RZero)
 VectorMassReadsBack == (err' = "" /\ act'.n \in {"AddMasses", "SetMasses"} /\ ~Cut(act'.x)) => VectorReadsBack
-\* a height change keeps every density (conserveMass = False) or every mass at the block and above (conserveMass = True)
+\* a height change keeps every density (conserveMass = False); with conserveMass it keeps the mass of every listed nuclide at
+\* the block and above, and "every other nuclide's density is unchanged"
+AdjOf(a) == {NucSeq[i] : i \in {j \in 1..Len(NucSeq) : a.adj[j]}}
 HeightChange == act'.n = "SetHeight" =>
     /\ H' = H /\ hgt' = [hgt EXCEPT ![act'.x] = act'.h]
-    /\ ~act'.cons => N' = N
-    /\ act'.cons => \A x \in {act'.x, Parent[act'.x], CoreId} : \A n \in Nuc : Massp(x, {n}) = Mass(N, x, {n})
+    /\ (~act'.cons \/ err' # "") => N' = N
+    /\ (act'.cons /\ err' = "") =>
+          /\ \A x \in {act'.x, Parent[act'.x], CoreId} : \A n \in AdjOf(act') : Massp(x, {n}) = Mass(N, x, {n})
+          /\ \A l \in Leaf, n \in Nuc \ AdjOf(act') : N'[l][n] = N[l][n]
+\* adjustDensity: the listed nuclides read back density * f at the block, every other nuclide's density is unchanged
+AdjustDensityReadsBack == Ok("AdjustDensity") =>
+    /\ \A n \in AdjOf(act') : NDp(act'.x, n) = QMul(ND(N, act'.x, n), act'.f)
+    /\ \A l \in Leaf, n \in Nuc \ AdjOf(act') : N'[l][n] = N[l][n]
+\* "assigning mass fractions ...": enrichment = share of the enriched nuclide within its element
+Share(mf, S) == QSumSet(S, LAMBDA n : mf[n])
+AdjustEnrichReadsBack == Ok("AdjustEnrich") =>
+    LET x == act'.x  new == MassFracsp(x)  old == MassFracs(N, x)
+    IN /\ new["a"] = QMul(Share(new, Elem), act'.f)                                 \* reads back (getMassEnrichment)
+       /\ Share(new, Elem) = Share(old, Elem)                                        \* the element keeps its share
+       /\ \A n \in Nuc \ Elem : new[n] = old[n]                                     \* the other nuclides are not touched
+       /\ \A i, j \in Elem \ {"a"} : QMul(new[i], old[j]) = QMul(new[j], old[i])     \* the other isotopes keep their proportions
+       /\ Densp(x) = Dens(N, x)
+AdjustMFReadsBack == Ok("AdjustMF") =>
+    LET x == act'.x  new == MassFracsp(x)  old == MassFracs(N, x)  here == NucsAt(H, x)
+        AN == Resolve(act'.adj) \cap here  CN == Resolve(act'.hold) \cap here  ON == here \ (AN \cup CN)
+    IN (\/ ~RIsZero(Share(old, ON)) \/ Share(old, AN) = act'.v) =>                  \* feasible: something can give way
+         /\ Share(new, AN) = act'.v
+         /\ \A n \in CN : new[n] = old[n]
+         /\ \A i, j \in ON : QMul(new[i], old[j]) = QMul(new[j], old[i])
+         /\ \A i, j \in AN : QMul(new[i], old[j]) = QMul(new[j], old[i]) \/ RIsZero(Share(old, AN))
+         /\ Densp(x) = Dens(N, x)
 CutLeafMassReadsBack ==          \* the same clauses on components of blocks cut by symmetry lines (see header)
     /\ (err' = "" /\ act'.n \in {"AddMass", "RemoveMass", "SetMass"} /\ IsLeaf(act'.x)) =>
           IF act'.n = "SetMass" THEN Massp(act'.x, {act'.nuc}) = act'.m
@@ -393,13 +467,13 @@ SetMassFracsReadsBack == (Ok("SetMassFracs") /\ Feasible(act'.x, act'.m)) =>
        /\ \A o1, o2 \in Nuc \ DOMAIN fm : QMul(new[o1], old[o2]) = QMul(new[o2], old[o1])
 \* edits never reach outside the edited object; refusals change nothing
 OutsideUntouched == act'.n # "Init" => \A l \in Leaf \ Under[act'.x] : N'[l] = N[l] /\ H'[l] = H[l]
-RefusalsChangeNothing == (err' = "ValueError" /\ act'.n \notin {"AddMasses", "SetMasses"}) => UNCHANGED vars
+RefusalsChangeNothing == (err' \in {"ValueError", "RuntimeError"} /\ act'.n \notin {"AddMasses", "SetMasses", "SetHeight"}) => UNCHANGED vars
 \* component-level setters make the component hold exactly what was set
 KeysGrowOnly == act'.n \notin {"SetNs", "Init"} => \A l \in Leaf : H[l] \subseteq H'[l]
 
 ReadBack == [][/\ SetNReadsBack /\ UpdateNReadsBack /\ SetNsReadsBack /\ ScaleReadsBack /\ ClearReadsBack
                /\ AddMassReadsBack /\ RemoveMassReadsBack /\ SetMassReadsBack /\ SetMassFracsReadsBack
-               /\ VectorMassReadsBack /\ HeightChange]_allvars
+               /\ VectorMassReadsBack /\ HeightChange /\ AdjustDensityReadsBack /\ AdjustEnrichReadsBack /\ AdjustMFReadsBack]_allvars
 Locality == [][OutsideUntouched /\ RefusalsChangeNothing /\ KeysGrowOnly]_allvars
 CutLeafReadBack == [][CutLeafMassReadsBack]_allvars
 \* "scaling the number density ... at any level": the call completes at every level (see header: ScaleRaises)
@@ -407,20 +481,22 @@ ScaleCompletes == act'.n = "Scale" => err' = ""
 ScaleAtAnyLevel == [][ScaleCompletes]_allvars
 
 (* --------------------------------- what is emitted as the oracle for the real code ----------------------- *)
-HB(HH) == [l \in Leaf |-> [i \in 1..3 |-> NucSeq[i] \in HH[l]]]
+HB(HH) == [l \in Leaf |-> [i \in 1..Len(NucSeq) |-> NucSeq[i] \in HH[l]]]
 Vars == [N |-> N, H |-> HB(H), tr |-> tr, hgt |-> [i \in 1..NBlk |-> hgt[NLeaf + i]]]
 \* what every query of the real object has to return in this state ("undefined": not compared, see header)
 ObsOf(x, v) ==
     LET rho == DT_MassDensity(v)
     IN [vol    |-> Vol[x],
         evol   |-> EditVol[x],
-        nucs   |-> [i \in 1..3 |-> NucSeq[i] \in NucsAt(H, x)],
+        nucs   |-> [i \in 1..Len(NucSeq) |-> NucSeq[i] \in NucsAt(H, x)],
         nd     |-> v,
         mass   |-> [s \in DOMAIN Sel |-> Mass(N, x, Sel[s])],
         masses |-> [n \in Nuc |-> DT_MassInGrams(n, EditVol[x], v[n])],
         atoms  |-> [n \in Nuc |-> QMul(v[n], EditVol[x])],
         dens   |-> IF IsLeaf(x) /\ RIsZero(rho) THEN <<-1, 1>> ELSE rho,         \* -1: Component.density() defers to the material
-        mf     |-> IF RIsZero(rho) THEN [n \in Nuc |-> <<-1, 1>>] ELSE DT_MassFractions(v)]   \* -1: not compared
+        mf     |-> IF RIsZero(rho) THEN [n \in Nuc |-> <<-1, 1>>] ELSE DT_MassFractions(v),   \* -1: not compared
+        enr    |-> LET mf == DT_MassFractions(v)  e == QSumSet(Elem, LAMBDA n : mf[n])            \* Component.getMassEnrichment
+                   IN IF ~IsLeaf(x) \/ RIsZero(rho) \/ RIsZero(e) THEN <<-1, 1>> ELSE QDiv(mf["a"], e)]   \* -1: not compared (0/0, or traces)
 Obs == LET nd == NDT(N) IN [x \in Node |-> ObsOf(x, nd[x])]
 Tree == [parent |-> Parent, area |-> Area, height |-> [b \in Blk |-> Height[b]], hdom |-> HDom, sym |-> [b \in Blk |-> Sym[b]],
          w |-> W, nleaf |-> NLeaf, nblk |-> NBlk, nasm |-> NAsm, leafVolCut |-> LeafVolCut, scaleRaises |-> ScaleRaises, targets |-> Targets]
